@@ -19,8 +19,11 @@ KINDS = list(MG.GENERATORS)
 
 @st.composite
 def mixed_strategy(draw, tier):
-    # about 40 % dynamic state objects, 60 % deck objects
-    if draw(st.integers(0, 9)) < 4:
+    # about 40 % dynamic state objects, 60 % deck objects.  The nominal probability is 0.8: Hypothesis' generate phase
+    # follows every example with up to five structural mutations of it (spans with equal labels swapped), which
+    # multiplies the many-draw deck cases about sixfold and the single-draw dynamic cases not at all; measured
+    # effective share of dynamic cases with 0.8: 0.26 .. 0.48 per shard, ~0.4 over a run (see evidence "kind:dyn").
+    if draw(st.integers(0, 9)) < 8:
         return draw(DYN.strategy(tier))
     return draw(case_strategy())
 
@@ -107,7 +110,7 @@ class C11(Check):
 
     def floors(self, tier):
         # vacuity guard: every dynamic class must actually occur
-        return {"dyn:" + c: 0.02 for c in DYN.CLASSES}
+        return {"dyn:" + c: 0.01 for c in DYN.CLASSES}
 
     def classify(self, case):
         if case["kind"] == "shipped":
@@ -157,6 +160,13 @@ class C11(Check):
             if case["kind"] == "shipped":
                 raise Discard()      # a shipped deck that needs other context (restart file, python, ...)
             raise
+        if case["kind"] == "dyn":
+            if "roundtrip_exc" in r:
+                # the object was built by valid calls; pack / unpack / compare / a getter sweep must not throw on it
+                return {"rule": "%s: exception during the pack/unpack round trip of a validly built object" % case["cls"],
+                        "detail": {"what": r["roundtrip_exc"], "input": {k: case.get(k) for k in ("cls", "testobj", "ctor", "ops")}},
+                        "key": None}
+            r = r["result"]
         for name in ((case["cls"],) if case["kind"] == "dyn" else ("Schedule", "EclipseState", "SummaryConfig")):
             o = r[name]
             bad = None
@@ -178,7 +188,8 @@ class C11(Check):
             if bad:
                 detail = {"object": name, "sizes": {k: v for k, v in o.items() if k.endswith("bytes")}}
                 if bad[1]:
-                    f = self.call(P, case, True)[name]
+                    f = self.call(P, case, True)
+                    f = (f["result"] if case["kind"] == "dyn" else f)[name]
                     for other in ("y", "z"):
                         d = first_diff(json.loads(f[bad[1] + "_x"]), json.loads(f[bad[1] + "_" + other]))
                         if d:
